@@ -118,13 +118,15 @@ def insert(data, span, position, key, value):
     return data[:pos] + hdr + data[eol:]
 
 
-def check_insertions(name, data, ref, edits):
+def check_insertions(name, data, ref, edits, rendered=None):
     """edits: list of (header index, position, key, value) applied right to
-    left so earlier offsets stay valid."""
+    left so earlier offsets stay valid. `rendered`: the insertions actually
+    written when they differ from the ones the records are expected to
+    show (duplicate keys)."""
     spans = header_spans(data)
     d2 = data
     by_header = {}
-    for hi, position, key, value in edits:
+    for hi, position, key, value in (rendered or edits):
         by_header.setdefault(hi, []).append((position, key, value))
     for hi in sorted(by_header, reverse=True):
         pos, eol, plen, optlist = spans[hi]
@@ -239,6 +241,27 @@ def run_unit(unit, tier):
                                      'edits': [list(e) for e in edits]})
         acc.outcome('ok' if not viols else 'violation')
 
+    def one_dup(edits):
+        # duplicates: any one of the given values may be reported
+        vs = []
+        for pick in range(len(edits)):
+            viols = check_insertions(name, data, ref, [edits[pick]],
+                                     rendered=edits)
+            vs.append(viols)
+            if not viols:
+                break
+        viols = [] if any(not x for x in vs) else vs[0]
+        acc.evals += 1
+        acc.states += 1
+        acc.transitions += 1
+        acc.validated += 1
+        acc.nontrivial += 1
+        for key_, msg in viols:
+            acc.violation(key_ + ':duplicate-key', msg,
+                          {'kind': 'dup', 'file': fi,
+                           'edits': [list(e) for e in edits]})
+        acc.outcome('ok' if not viols else 'violation')
+
     content = 'length' in ref[hi]['options']
     if kind == 'single':
         for key in KEYS:
@@ -276,6 +299,16 @@ def run_unit(unit, tier):
                                 continue
                             one([(a, len(spans[a][3]), key, va),
                                  (b, 0, key, vb)], True)
+            # ... and twice (three times) on ONE header: the grammar does
+            # not forbid it; the record carries one of the given values and
+            # nothing else changes
+            for a in hs:
+                npos_a = len(spans[a][3])
+                for va, vb in (('ci', 'ci'), ('1', '1'), ('1', '2'),
+                               ('x', '7')):
+                    one_dup([(a, 0, key, va), (a, npos_a, key, vb)])
+                    one_dup([(a, 0, key, va), (a, 0, key, vb),
+                             (a, npos_a, key, va)])
             if nh >= 3:
                 for va, vb, vc in (('a3f9c1e', '12', 'x'), ('12', 'x', '13'),
                                    ('x', 'y', '14')):
@@ -317,6 +350,15 @@ def run_unit(unit, tier):
 
 
 def replay(payload):
+    if payload.get('kind') == 'dup':
+        name, data = files()[payload['file']]
+        ref_recs, exc, _, _ = read_all(data)
+        ref = [rec_core(r) for r in ref_recs]
+        edits = [tuple(e) for e in payload['edits']]
+        vs = [check_insertions(name, data, ref, [e], rendered=edits)
+              for e in edits]
+        viols = [] if any(not x for x in vs) else vs[0]
+        return [{'key': k + ':duplicate-key', 'msg': m} for k, m in viols]
     if payload.get('kind') != 'edits':
         return []
     name, data = files()[payload['file']]
